@@ -119,7 +119,7 @@ class Parameters:
         self.environment_defs = [
 
         Environ(self, 'figure', args='O', add_pars=False),
-        Environ(self, 'minipage', args='A'),
+        Environ(self, 'minipage', args='OOOA'),
 #       Environ(self, 'table', repl='[Tabelle]', remove=True),
         Environ(self, 'table', args='O', add_pars=False),
         Environ(self, 'tabular', args='OA', add_pars=False),
